@@ -233,3 +233,331 @@ Lemma cmp_num f g a b : cmp (VNum f a) (VNum g b) = c2z (Z.compare a b).
 Proof. reflexivity. Qed.
 Lemma cmp_none_smallest v : v <> VNone -> cmp VNone v = -1.
 Proof. destruct v; try congruence; intros _; reflexivity. Qed.
+
+(* ------------------------------------------------------------------ insertion sort *)
+Section ISortP.
+  Context {A : Type} (le : A -> A -> bool).
+  Let R := fun a b => le a b = true.
+  Lemma insert_perm x l : Permutation (insert le x l) (x :: l).
+  Proof.
+    induction l as [|y l IH]; cbn; auto. destruct (le x y); auto.
+    eapply perm_trans; [apply perm_skip, IH | apply perm_swap].
+  Qed.
+  Lemma isort_cons x l : isort le (x :: l) = insert le x (isort le l).
+  Proof. reflexivity. Qed.
+  Lemma isort_perm l : Permutation (isort le l) l.
+  Proof. induction l; [constructor|]. rewrite isort_cons. eapply perm_trans; [apply insert_perm | auto]. Qed.
+  Lemma isort_length l : length (isort le l) = length l.
+  Proof. apply Permutation_length, isort_perm. Qed.
+  Lemma isort_id l : Sorted R l -> isort le l = l.
+  Proof.
+    induction l as [|x l IH]; [reflexivity|]. rewrite isort_cons. intros S. apply Sorted_inv in S. destruct S as [S H].
+    rewrite IH by auto. destruct l as [|y l]; cbn [insert]; auto. apply HdRel_inv in H. unfold R in H. rewrite H. reflexivity.
+  Qed.
+  Hypothesis total : forall x y, le x y = false -> le y x = true.
+  Lemma insert_sorted x l : Sorted R l -> Sorted R (insert le x l).
+  Proof.
+    induction l as [|y l IH]; cbn; intros S; [repeat constructor|].
+    destruct (le x y) eqn:E; [constructor; auto|].
+    apply Sorted_inv in S. destruct S as [S H]. constructor; [apply IH; auto|].
+    destruct l as [|z l]; cbn; [constructor; apply total; auto|].
+    destruct (le x z); constructor; [apply total; auto | apply HdRel_inv in H; auto].
+  Qed.
+  Lemma isort_sorted l : Sorted R (isort le l).
+  Proof. induction l; [constructor | rewrite isort_cons; apply insert_sorted; auto]. Qed.
+  Hypothesis trans : forall x y z, le x y = true -> le y z = true -> le x z = true.
+  Lemma isort_ssorted l : StronglySorted R (isort le l).
+  Proof. apply Sorted_StronglySorted; [intros x y z; apply trans | apply isort_sorted]. Qed.
+End ISortP.
+
+Lemma insert_map {A B} (f : A -> B) (le : B -> B -> bool) x l :
+  insert le (f x) (map f l) = map f (insert (fun a b => le (f a) (f b)) x l).
+Proof. induction l as [|y l IH]; cbn; auto. destruct (le (f x) (f y)); cbn; congruence. Qed.
+Lemma isort_map {A B} (f : A -> B) (le : B -> B -> bool) l :
+  isort le (map f l) = map f (isort (fun a b => le (f a) (f b)) l).
+Proof. induction l; [reflexivity|]. cbn [map]. rewrite !isort_cons. rewrite IHl. apply insert_map. Qed.
+
+Lemma insert_ext {A} (le le' : A -> A -> bool) x l : (forall a b, le a b = le' a b) -> insert le x l = insert le' x l.
+Proof. intros H. induction l as [|y m IHm]; cbn [insert]; [reflexivity|]. rewrite H, IHm. reflexivity. Qed.
+Lemma isort_ext {A} (le le' : A -> A -> bool) l : (forall a b, le a b = le' a b) -> isort le l = isort le' l.
+Proof. intros H. induction l as [|x l IH]; [reflexivity|]. rewrite !isort_cons, IH. apply insert_ext, H. Qed.
+
+Lemma cmp_le_total x y : cmp_le x y = false -> cmp_le y x = true.
+Proof. unfold cmp_le. intros H. apply Z.leb_gt in H. apply Z.leb_le. rewrite cmp_antisym. lia. Qed.
+Lemma cmp_le_trans x y z : cmp_le x y = true -> cmp_le y z = true -> cmp_le x z = true.
+Proof. unfold cmp_le. rewrite !Z.leb_le. apply cmp_trans. Qed.
+
+Theorem sort_perm_sorted l : Permutation (sort l) l /\ StronglySorted (fun a b => cmp a b <= 0) (sort l).
+Proof.
+  split; [apply isort_perm|].
+  pose proof (isort_ssorted cmp_le cmp_le_total cmp_le_trans l) as S.
+  unfold sort. induction S; constructor; auto.
+  eapply Forall_impl; [|exact H]. intros b Hb. apply Z.leb_le. exact Hb.
+Qed.
+Lemma sort_sorted_id l : Sorted (fun a b => cmp a b <= 0) l -> sort l = l.
+Proof.
+  intros S. apply isort_id. induction S; constructor; auto.
+  destruct H; constructor. apply Z.leb_le. auto.
+Qed.
+Lemma sort_idempotent l : sort (sort l) = sort l.
+Proof. apply sort_sorted_id. apply StronglySorted_Sorted. apply sort_perm_sorted. Qed.
+
+(* ------------------------------------------------------------------ lists indexed by position *)
+Lemma map_nth_seq {X} (d : X) : forall l s, map (fun i => nth (i - s) l d) (seq s (length l)) = l.
+Proof.
+  induction l as [|x l IH]; intros s; cbn [length seq map]; auto. f_equal.
+  - rewrite Nat.sub_diag. reflexivity.
+  - rewrite <- (IH (S s)) at 2. apply map_ext_in. intros i Hi. apply in_seq in Hi.
+    replace (i - s)%nat with (S (i - S s)) by lia. reflexivity.
+Qed.
+Lemma gather_seq {X} (d : X) l : gather d l (seq 0 (length l)) = l.
+Proof.
+  unfold gather. transitivity (map (fun i => nth (i - 0) l d) (seq 0 (length l))); [|apply map_nth_seq].
+  apply map_ext. intros. f_equal. lia.
+Qed.
+Lemma combine_seq {X} (d : X) : forall l s, combine l (seq s (length l)) = map (fun i => (nth (i - s) l d, i)) (seq s (length l)).
+Proof.
+  induction l as [|x l IH]; intros s; cbn [length seq map combine]; auto. f_equal.
+  - rewrite Nat.sub_diag. reflexivity.
+  - rewrite (IH (S s)). apply map_ext_in. intros i Hi. apply in_seq in Hi.
+    replace (i - s)%nat with (S (i - S s)) by lia. reflexivity.
+Qed.
+
+Lemma StronglySorted_nth {X} (R : X -> X -> Prop) d : forall l, StronglySorted R l ->
+  forall p q, (p < q < length l)%nat -> R (nth p l d) (nth q l d).
+Proof.
+  induction 1; intros p q Hpq; cbn in Hpq; [lia|].
+  destruct q; [lia|]. destruct p; cbn.
+  - rewrite Forall_forall in H0. apply H0. apply nth_In. lia.
+  - apply IHStronglySorted. lia.
+Qed.
+Lemma nth_StronglySorted {X} (R : X -> X -> Prop) d : forall l,
+  (forall p q, (p < q < length l)%nat -> R (nth p l d) (nth q l d)) -> StronglySorted R l.
+Proof.
+  induction l as [|x l IH]; intros H; constructor.
+  - apply IH. intros p q Hpq. apply (H (S p) (S q)). cbn. lia.
+  - apply Forall_forall. intros y Hy. destruct (In_nth _ _ d Hy) as [q [Hq E]]. rewrite <- E.
+    apply (H 0%nat (S q)). cbn. lia.
+Qed.
+Lemma StronglySorted_NoDup_impl {X} (R R' : X -> X -> Prop) l :
+  StronglySorted R l -> NoDup l -> (forall a b, R a b -> a <> b -> R' a b) -> StronglySorted R' l.
+Proof.
+  induction 1; intros ND HI; constructor; inversion ND; subst; auto.
+  rewrite Forall_forall in *. intros b Hb. apply HI; auto. intros ->. contradiction.
+Qed.
+
+(* ------------------------------------------------------------------ dictable.sort: decorate / sort / undecorate *)
+Lemma thenc_Eq_r c : thenc c Eq = c.
+Proof. destruct c; reflexivity. Qed.
+Lemma cmpc_decorate k i k' i' :
+  cmpc (decorate1 (k, i)) (decorate1 (k', i')) = thenc (cmpc k k') (Nat.compare i i').
+Proof.
+  unfold cmpc, decorate1, vidx. cbn [fst snd norm map]. rewrite cmpn_eq.
+  cbn [rank len0 length cmpn_body lexz lexp]. rewrite !Z.compare_refl. cbn [thenc]. f_equal.
+  rewrite cmpn_eq. cbn [rank len0 cmpn_body body_scalar numkey cmp_ext]. rewrite !Z.compare_refl. cbn [thenc].
+  rewrite thenc_Eq_r. rewrite <- (Nat2Z.inj_compare i i').
+  destruct (Z.compare_spec (Z.of_nat i) (Z.of_nat i')) as [E|E|E];
+    [apply Z.compare_eq_iff | apply Z.compare_lt_iff | apply Z.compare_gt_iff]; lia.
+Qed.
+Lemma idx_of_decorate1 k i : idx_of (decorate1 (k, i)) = i.
+Proof.
+  unfold idx_of, decorate1, vidx. cbn [fst snd]. rewrite Z.mul_comm, Z.div_mul by lia. apply Nat2Z.id.
+Qed.
+
+(* the comparison the sort actually uses on row indices *)
+Definition ile (ks : list val) (i j : nat) : bool := cmp_le (decorate1 (nth i ks VNone, i)) (decorate1 (nth j ks VNone, j)).
+
+Lemma dsort_idx_eq ks : dsort_idx ks = isort (ile ks) (seq 0 (length ks)).
+Proof.
+  unfold dsort_idx, decorate, sort. rewrite (combine_seq VNone ks 0%nat). rewrite map_map.
+  rewrite (isort_map (fun i => decorate1 (nth (i - 0) ks VNone, i)) cmp_le). rewrite map_map.
+  erewrite map_ext; [rewrite map_id|intros; apply idx_of_decorate1].
+  apply isort_ext. intros a b. unfold ile. rewrite !Nat.sub_0_r. reflexivity.
+Qed.
+
+Lemma ile_spec ks i j : ile ks i j = true <-> (key_lt ks i j \/ (cmp (nth i ks VNone) (nth j ks VNone) = 0 /\ i = j)).
+Proof.
+  unfold ile, cmp_le, key_lt, cmp. rewrite cmpc_decorate, Z.leb_le.
+  destruct (cmpc (nth i ks VNone) (nth j ks VNone)); cbn [thenc c2z].
+  - destruct (Nat.compare_spec i j); cbn; split; intros; try lia.
+  - split; intros; lia.
+  - split; intros; lia.
+Qed.
+Lemma ile_total ks i j : ile ks i j = false -> ile ks j i = true.
+Proof. apply cmp_le_total. Qed.
+Lemma ile_trans ks i j k : ile ks i j = true -> ile ks j k = true -> ile ks i k = true.
+Proof. apply cmp_le_trans. Qed.
+
+(* dictable.sort is a STABLE sort: the row indices come out as a permutation, strictly ordered by (key under cmp, original position) *)
+Theorem dsort_idx_stable ks :
+  Permutation (dsort_idx ks) (seq 0 (length ks)) /\ StronglySorted (key_lt ks) (dsort_idx ks).
+Proof.
+  rewrite dsort_idx_eq. split; [apply isort_perm|].
+  apply (StronglySorted_NoDup_impl (fun a b => ile ks a b = true)).
+  - apply isort_ssorted; [apply ile_total | apply ile_trans].
+  - eapply Permutation_NoDup; [apply Permutation_sym, isort_perm | apply seq_NoDup].
+  - intros a b H Hab. apply ile_spec in H. destruct H as [H|[_ H]]; [auto | contradiction].
+Qed.
+Lemma dsort_idx_length ks : length (dsort_idx ks) = length ks.
+Proof. rewrite (Permutation_length (proj1 (dsort_idx_stable ks))). apply seq_length. Qed.
+Lemma dsort_idx_lt ks : Forall (fun i => (i < length ks)%nat) (dsort_idx ks).
+Proof.
+  apply Forall_forall. intros i Hi. apply (Permutation_in _ (proj1 (dsort_idx_stable ks))) in Hi. apply in_seq in Hi. lia.
+Qed.
+
+(* keys that are already in stable order are left alone *)
+Lemma dsort_idx_sorted_id ks :
+  (forall p q, (p < q < length ks)%nat -> cmp (nth p ks VNone) (nth q ks VNone) <= 0) -> dsort_idx ks = seq 0 (length ks).
+Proof.
+  intros H. rewrite dsort_idx_eq. apply isort_id. apply StronglySorted_Sorted.
+  apply (nth_StronglySorted _ 0%nat). intros p q Hpq. rewrite seq_length in Hpq. rewrite !seq_nth by lia. cbn.
+  apply ile_spec. left. unfold key_lt. specialize (H p q Hpq). lia.
+Qed.
+
+(* sorting the gathered keys again gives the identity permutation *)
+Lemma dsort_idx_idem ks : dsort_idx (gather VNone ks (dsort_idx ks)) = seq 0 (length ks).
+Proof.
+  pose proof (dsort_idx_stable ks) as [P S]. pose proof (dsort_idx_length ks) as L. pose proof (dsort_idx_lt ks) as B.
+  set (idx := dsort_idx ks) in *.
+  assert (LG : length (gather VNone ks idx) = length ks) by (unfold gather; rewrite map_length; auto).
+  rewrite <- LG. apply dsort_idx_sorted_id. rewrite LG. intros p q Hpq.
+  unfold gather. rewrite !(nth_indep (map _ idx) VNone (nth 0%nat ks VNone)) by (rewrite map_length; lia).
+  rewrite !(map_nth (fun i => nth i ks VNone) idx 0%nat).
+  assert (K : key_lt ks (nth p idx 0%nat) (nth q idx 0%nat)) by (apply StronglySorted_nth; auto; lia).
+  unfold key_lt in K. lia.
+Qed.
+
+(* ---- tables *)
+Lemma nrows_permute t idx : t <> [] -> nrows (permute t idx) = length idx.
+Proof. destruct t as [|[c vs] t]; [congruence|]. intros _. cbn. unfold gather. apply map_length. Qed.
+Lemma row_permute t idx j : (j < length idx)%nat -> row (permute t idx) j = row t (nth j idx 0%nat).
+Proof.
+  intros Hj. unfold row, permute. rewrite map_map. apply map_ext. intros [c vs]. cbn [fst snd]. f_equal.
+  unfold gather. rewrite (nth_indep (map _ idx) VNone (nth (0%nat) vs VNone)) by (rewrite map_length; auto).
+  apply (map_nth (fun i => nth i vs VNone)).
+Qed.
+Lemma rows_permute t idx : t <> [] -> rows (permute t idx) = map (row t) idx.
+Proof.
+  intros Ht. unfold rows. rewrite nrows_permute by auto.
+  transitivity (map (row t) (map (fun i => nth (i - 0) idx 0%nat) (seq 0 (length idx)))); [|f_equal; apply map_nth_seq].
+  rewrite map_map. apply map_ext_in. intros j Hj. apply in_seq in Hj.
+  rewrite Nat.sub_0_r. apply row_permute. lia.
+Qed.
+Lemma permute_seq n t : rect n t -> permute t (seq 0 n) = t.
+Proof.
+  unfold rect, permute. induction 1 as [|[c vs] t H _ IH]; cbn [map]; auto. rewrite IH. cbn [fst snd] in *.
+  rewrite <- H. rewrite gather_seq. reflexivity.
+Qed.
+Lemma rect_permute t idx : rect (length idx) (permute t idx).
+Proof. unfold rect, permute. apply Forall_forall. intros cv H. apply in_map_iff in H. destruct H as [[c vs] [<- _]]. cbn. apply map_length. Qed.
+Lemma nrows_pos_ne t : nrows t <> 0%nat -> t <> [].
+Proof. destruct t; cbn; congruence. Qed.
+Lemma keys_length (kf : arow -> val) t : length (map kf (rows t)) = nrows t.
+Proof. unfold rows. rewrite map_length, map_length. apply seq_length. Qed.
+
+(* dictable.sort: the rows of the result are the rows of t taken in stable key order *)
+Theorem dsort_with_stable kf t :
+  let ks := map kf (rows t) in
+  exists idx, Permutation idx (seq 0 (nrows t)) /\ StronglySorted (key_lt ks) idx /\
+              rows (dsort_with kf t) = map (row t) idx /\ (nrows t <> 0%nat -> dsort_with kf t = permute t idx).
+Proof.
+  intros ks. exists (dsort_idx ks). pose proof (dsort_idx_stable ks) as [P S]. unfold ks in P at 2. rewrite keys_length in P.
+  split; [exact P|]. split; [exact S|].
+  unfold dsort_with. destruct (nrows t) eqn:E.
+  - split; [|congruence]. unfold rows. rewrite E. apply Permutation_sym, Permutation_nil in P. rewrite P. reflexivity.
+  - fold ks. split; [|auto]. apply rows_permute. apply nrows_pos_ne. lia.
+Qed.
+
+Lemma nth_keys (kf : arow -> val) t i : (i < nrows t)%nat -> nth i (map kf (rows t)) VNone = kf (row t i).
+Proof.
+  intros H. unfold rows. rewrite map_map.
+  rewrite (nth_indep _ VNone (kf (row t 0%nat))) by (rewrite map_length, seq_length; auto).
+  rewrite (map_nth (fun i => kf (row t i)) (seq 0 (nrows t)) 0%nat). rewrite seq_nth by auto. reflexivity.
+Qed.
+
+Theorem dsort_with_idempotent kf n t : rect n t -> dsort_with kf (dsort_with kf t) = dsort_with kf t.
+Proof.
+  intros Hr. unfold dsort_with at 2 3. destruct (nrows t) eqn:E; [unfold dsort_with; rewrite E; reflexivity|].
+  assert (Ht : t <> []) by (apply nrows_pos_ne; lia).
+  set (ks := map kf (rows t)). set (idx := dsort_idx ks).
+  assert (Lk : length ks = S n0) by (unfold ks; rewrite keys_length; auto).
+  assert (Li : length idx = S n0) by (unfold idx; rewrite dsort_idx_length; auto).
+  unfold dsort_with. rewrite nrows_permute, Li by auto.
+  rewrite rows_permute by auto. rewrite map_map.
+  assert (EK : map (fun x => kf (row t x)) idx = gather VNone ks idx).
+  { unfold gather. apply map_ext_in. intros i Hi. unfold ks. rewrite nth_keys; auto.
+    pose proof (dsort_idx_lt ks) as B. rewrite Forall_forall in B. specialize (B i Hi). lia. }
+  rewrite EK. unfold idx at 2. rewrite dsort_idx_idem. rewrite Lk, <- Li. apply (permute_seq (length idx)). apply rect_permute.
+Qed.
+
+(* ------------------------------------------------------------------ explicit value orders: d.sort(col = [v0, v1, ...]) *)
+Definition distinct_vals (vals : list val) : Prop :=
+  Forall (fun v => elem_eqb v v = true) vals /\
+  forall i j, (i < length vals)%nat -> (j < length vals)%nat -> elem_eqb (nth i vals VNone) (nth j vals VNone) = true -> i = j.
+
+Lemma distinct_tail v vs : distinct_vals (v :: vs) -> distinct_vals vs /\ existsb (elem_eqb v) vs = false.
+Proof.
+  intros [R D]. inversion R; subst. split; [split; auto|].
+  - intros i j Hi Hj E. specialize (D (S i) (S j)). cbn in D. assert (S i = S j) by (apply D; auto; lia). lia.
+  - destruct (existsb (elem_eqb v) vs) eqn:E; auto. apply existsb_exists in E. destruct E as [y [Hy E]].
+    destruct (In_nth _ _ VNone Hy) as [j [Hj Ej]]. specialize (D 0%nat (S j)). cbn in D. rewrite Ej in D.
+    assert (0 = S j)%nat by (apply D; auto; lia). lia.
+Qed.
+Lemma last_index_none x vals : forall i, existsb (elem_eqb x) vals = false -> last_index x vals i = None.
+Proof.
+  induction vals as [|v vs IH]; cbn; auto. intros i H. apply orb_false_iff in H. destruct H as [H1 H2].
+  rewrite IH by auto. rewrite H1. reflexivity.
+Qed.
+Lemma last_index_some x vals : forall i, existsb (elem_eqb x) vals = true ->
+  exists j, last_index x vals i = Some j /\ i <= j < i + Z.of_nat (length vals).
+Proof.
+  induction vals as [|v vs IH]; cbn [existsb last_index length]; [discriminate|]. intros i H.
+  destruct (existsb (elem_eqb x) vs) eqn:E.
+  - destruct (IH (i + 1) eq_refl) as [j [-> Hj]]. exists j. split; auto. lia.
+  - rewrite last_index_none by auto. rewrite orb_false_r in H. rewrite H. exists i. split; auto. lia.
+Qed.
+Lemma last_index_nth vals : distinct_vals vals -> forall p i, (p < length vals)%nat ->
+  last_index (nth p vals VNone) vals i = Some (i + Z.of_nat p).
+Proof.
+  induction vals as [|v vs IH]; intros D p i Hp; cbn in Hp; [lia|].
+  destruct (distinct_tail _ _ D) as [D' E]. destruct D as [R _]. inversion R; subst.
+  destruct p; cbn [nth last_index].
+  - rewrite last_index_none by auto. rewrite H1. f_equal. lia.
+  - rewrite IH by (auto; lia). f_equal. lia.
+Qed.
+Lemma ndistinct_distinct vals : distinct_vals vals -> ndistinct vals = Z.of_nat (length vals).
+Proof.
+  induction vals as [|v vs IH]; intros D; [reflexivity|]. destruct (distinct_tail _ _ D) as [D' E].
+  cbn [ndistinct length]. rewrite E, IH by auto. lia.
+Qed.
+
+(* listed values get their position in the given order, every unlisted value the common last rank *)
+Theorem vrank_listed vals p : distinct_vals vals -> (p < length vals)%nat -> vrank vals (nth p vals VNone) = Z.of_nat p.
+Proof. intros D H. unfold vrank. rewrite last_index_nth by auto. lia. Qed.
+Theorem vrank_unlisted vals x : distinct_vals vals -> existsb (elem_eqb x) vals = false -> vrank vals x = Z.of_nat (length vals).
+Proof. intros D H. unfold vrank. rewrite last_index_none by auto. apply ndistinct_distinct, D. Qed.
+Theorem vrank_listed_lt vals x : existsb (elem_eqb x) vals = true -> 0 <= vrank vals x < Z.of_nat (length vals).
+Proof. intros H. unfold vrank. destruct (last_index_some x vals 0 H) as [j [-> Hj]]. lia. Qed.
+
+Lemma cmp_rank1 a b : cmp (VList [VNum false (2 * a)]) (VList [VNum false (2 * b)]) = c2z (Z.compare a b).
+Proof.
+  unfold cmp, cmpc. cbn [norm map]. rewrite cmpn_eq. cbn [rank len0 length cmpn_body lexz lexp thenc]. rewrite !Z.compare_refl. cbn [thenc].
+  rewrite cmpn_eq. cbn [rank len0 cmpn_body body_scalar numkey cmp_ext]. rewrite !Z.compare_refl. cbn [thenc]. rewrite thenc_Eq_r. f_equal.
+  destruct (Z.compare_spec a b) as [E|E|E]; [apply Z.compare_eq_iff | apply Z.compare_lt_iff | apply Z.compare_gt_iff]; lia.
+Qed.
+
+(* one value-ordered column: down the result the rank never decreases (so listed values come in the given order and
+   unlisted ones last), and rows of equal rank keep their original order *)
+Theorem dsort_byval1_order c vals t :
+  exists idx, Permutation idx (seq 0 (nrows t)) /\ rows (dsort_byval [(c, vals)] t) = map (row t) idx /\
+    StronglySorted (fun i j => let ri := vrank vals (lookup (row t i) c) in let rj := vrank vals (lookup (row t j) c) in
+                               ri < rj \/ (ri = rj /\ (i < j)%nat)) idx.
+Proof.
+  destruct (dsort_with_stable (key_byval [(c, vals)]) t) as [idx [P [S [R _]]]]. exists idx. split; [exact P|]. split; [exact R|].
+  assert (B : Forall (fun i => (i < nrows t)%nat) idx).
+  { apply Forall_forall. intros i Hi. apply (Permutation_in _ P) in Hi. apply in_seq in Hi. lia. }
+  clear P R. induction S; constructor; inversion B; subst; auto.
+  rewrite Forall_forall in *. intros j Hj. specialize (H j Hj). unfold key_lt in H. rewrite !nth_keys in H by auto.
+  unfold key_byval in H. cbn [map fst snd] in H. rewrite cmp_rank1 in H. cbn zeta.
+  destruct (Z.compare_spec (vrank vals (lookup (row t a) c)) (vrank vals (lookup (row t j) c))); cbn in H; lia.
+Qed.
